@@ -55,6 +55,11 @@ SHAPES = [
     "select * from t where " + " and ".join(f"a{i} = {i}" for i in range(300)), "select " + " + ".join(["x"] * 300) + " from t",
     "select * from t where " + " or ".join(f"a{i} > {i}" for i in range(250)),
     "select native_query from int1 (select 1)", "select * from int1 (select * from t where a = 'x')",
+    # functions with a FROM-separated argument, in several positions and more than once per statement
+    "select substring(a from 2) from t", "select trim(a from b) from t", "select f(x from y) from t", "select position('x' from a) from t",
+    "select substring(a from 2), substring(b from 3) from t where substring(c from 1) = 'x'", "select overlay(a from 2) as o, cast(b as foo) from t",
+    "select extract(month from d), extract(year from d) from t group by extract(year from d)", "select count(distinct a), sum(distinct b) from t",
+    "select substring(a from 2) from t union select substring(b from 3) from u", "update t set a = substring(b from 2) where trim(c from d) = 1",
 ]
 
 
